@@ -107,7 +107,10 @@ def effects(prog, f, depth=0, seen=None):
                             unknown.append((tgt, c))
                     elif kind == "method":
                         recv = c.func.value if isinstance(c.func, ast.Attribute) else None
-                        if tgt in PURE_STR_METHODS or tgt in ("append", "fullmatch", "match", "search"):
+                        if tgt in PURE_STR_METHODS or tgt in ("append", "fullmatch", "match", "search") or tgt in (
+                                # tests on sets of characters and on strings: no exception on str / frozenset operands
+                                "issuperset", "issubset", "isdisjoint", "isdecimal", "isnumeric", "isalpha", "isalnum", "isspace", "isupper", "islower",
+                                "rfind", "index", "rindex", "removesuffix", "splitlines", "rsplit", "zfill", "swapcase", "capitalize", "isidentifier", "isprintable"):
                             pass
                         else:
                             unknown.append(("." + tgt, c))
@@ -568,6 +571,11 @@ def run(ctx):
                     inline = True
             if inline or (tests and only_via_edge(cfg, n, tests, True)):
                 r3.ok(site(f, c), "%s only after a full match of the YYYY-MM-DD shape" % tgt)
+            elif "date" in all_names.get(f, ()) and "date" in FORMAT_TABLES and _format_table_eval(prog, f, "date", declared) == "":
+                # the shape is checked in a way this rule does not read (a helper predicate on the characters): the table of the date
+                # grammar and its near-misses -- the other ISO 8601 spellings fromisoformat accepts among them -- decides
+                r3.ok(site(f, c), "decided on the table only: %d dates accepted, %d near-misses (20200101, 2020-W01-1, 2020-001, non-ASCII digits, ...) rejected "
+                      "before %s could accept them" % (len(FORMAT_TABLES["date"][0]), len(FORMAT_TABLES["date"][1]), tgt))
             else:
                 r3.fail("%s|superset-delegate|%s" % (f.qual, tgt), site(f, c),
                         "%s hands the string straight to %s, which %s" % (f.name, tgt, SUPERSET_DELEGATES[tgt]))
@@ -599,7 +607,6 @@ def run(ctx):
     # a subset of formats (any iterable of names, walked once) really has the built-in functions for those names
     from .c12 import rule_single_pass
     rule_single_pass(ctx, "R13.7")
-    # R13.9: no behaviour changes at a number fixed in the source (sizes, depths, counts, magnitudes are unbounded in the property's domain)
-    from . import scope as _scope
-    _scope.rule_no_size_thresholds(ctx, 'R13.9', ('_format',), 'the format checkers')
+    # (no size-threshold rule here: a format's grammar may itself fix lengths and counts -- 253 octets of a host name, 8 groups of an
+    # IPv6 address; the tables of R13.8 decide those)
     return
